@@ -4,5 +4,5 @@ From Coq Require Import Extraction ExtrOcamlBasic.
 From Robsd Require Import Ks.ArithDefs Ks.ArithSpec Ks.KsInst.
 Extraction Language OCaml.
 Extraction "ks_model.ml" Nat.add N.add fallback fallback_sig entry_point spec_ok_checked
-  vrun_inst vrun_instf spec_ok_vec_inst spec_ok_vec_faulty_inst brun_inst brun_instf grun_instf spec_ok_buf_inst spec_ok_buf_faulty_inst
-  mrun_inst arun_inst spec_ok_map spec_ok_multi multi_width disciplined dict0 hash_jen.
+  vrun_inst vrun_instf spec_ok_vec_inst brun_inst brun_instf grun_instf spec_ok_buf_inst spec_ok_gbuf_inst
+  mrun_inst arun_inst spec_ok_kdict no_reinsert kd_first_reject spec_ok_multi multi_width dict0 hash_jen.
